@@ -1053,11 +1053,22 @@ func siteOf(kind string, t *txIn) string {
 				}
 			}
 		}
-		ks := []string{}
+		// no known pattern: name the fate class and the write operations
+		set := map[string]bool{}
 		for _, o := range t.Ops {
-			ks = append(ks, o.K)
+			if !isRead(o.K) {
+				set[o.K] = true
+			}
 		}
-		return "unexplained:" + t.Fate + ":" + strings.Join(ks, "+")
+		ks := []string{}
+		for k := range set {
+			ks = append(ks, k)
+		}
+		sort.Strings(ks)
+		if len(ks) == 0 {
+			ks = []string{"reads-only"}
+		}
+		return "unexplained:" + strings.TrimPrefix(where, "-in-") + ":" + strings.Join(ks, "+")
 	}
 	aborted := t.Fate != "commit"
 	switch kind {
